@@ -876,6 +876,12 @@ func TestC15_baumwelch_step_enum(t *testing.T) {
 			c.Class("a record has zero probability")
 			// undefined update: must not be reported as an ordinary finite likelihood
 			if runErr == nil && len(hookL) > 0 && !math.IsInf(hookL[0], -1) && !math.IsNaN(hookL[0]) {
+				// with a worker pool the error of the failing record can be lost inside the thread
+				// pool (open finding of C17, a race in the dependency): schedule dependent
+				if threads > 0 && c.Known("C17/threadpool-drops-a-job-error-when-wait-wins-the-race") {
+					c.End()
+					return
+				}
 				t.Fatalf("%s: a record has zero probability but the step reports the likelihood %v", c.Desc(), hookL[0])
 			}
 			c.End()
